@@ -7,7 +7,7 @@ use crate::c11::{audit, same_outputs};
 use crate::env::ScratchMode;
 use crate::mods::Be;
 use crate::ops::{self, Fam, OpCase, adapt, exec};
-use crate::with_backend;
+use pzv_be::with_backend;
 use proptest::prelude::*;
 use pzv_common::driver::{Ctx, Verdict, guarded, panic_sig};
 use pzv_common::model::VClass;
